@@ -5,7 +5,7 @@ name=$1; patch=$2; demo=$3; shift 3
 export GOFLAGS=-mod=mod GOPROXY=off GOSUMDB=off GOTOOLCHAIN=local
 wt=/tmp/seedwt_$name
 git -C /repo worktree remove --force $wt 2>/dev/null
-git -C /repo worktree add -q $wt HEAD || exit 2
+git -C /repo worktree add -q $wt ${SEED_BASE:-HEAD} || exit 2
 cd $wt
 demodir=$(grep -o 'internal/[a-z]*' $demo | head -1)
 case "$(grep -m1 '^package ' $demo)" in
